@@ -1795,7 +1795,10 @@ class Sym:
                     if isinstance(cc, bool):
                         return q if cc else o
                     return self.merge(cc, q, o, 'quot')
-                return self.pointwise(div1, c_, a_, b_, o_)
+                res = self.pointwise(div1, c_, a_, b_, o_)
+                if isinstance(kw['out'], (ast.Name, ast.Attribute)):
+                    self.assign(kw['out'], res, env)      # numpy writes the result into `out` (and returns that array)
+                return res
         if isinstance(f, ast.Name) and f.id in self.spec.extern and f.id not in env and not e.keywords:
             binder, arity = self.spec.extern[f.id]
             if len(args) != arity:
@@ -2136,6 +2139,8 @@ class Sym:
                         and c.func.value.id == 'self' and self.cls and (self.mod.method(self.cls, c.func.attr)
                                                                         or self.mod.method_x(self.cls, c.func.attr)):
                     self.ev(c, env)                       # a helper of the class called for its effects on the tracked state
+                elif isinstance(c, ast.Call):
+                    self.call_statement(c, env)
                 continue  # docstrings, logging, warnings
             if isinstance(st, ast.Pass):
                 continue
@@ -2201,6 +2206,33 @@ class Sym:
                 continue
             for n in self.assigned([st]):
                 self.forget(n, env, f'assigned inside {type(st).__name__}')
+
+    PURE_CALLS = ('warnings.warn', 'warn', 'print', 'logger.', 'logging.', 'log.', 'super().__init__', 'super().__post_init__')
+
+    def call_statement(self, c: ast.Call, env: dict):
+        """a call used as a statement (its value is dropped): read for its effect on local arrays and records.
+        `np.f(…, out=x)` stores its result in `x`; any other call the translator cannot see through may write into the mutable
+        locals it receives (arrays, records, tuples of arrays) or is invoked on: they become unknown."""
+        kw = {k.arg: k.value for k in c.keywords}
+        npf = c.func.attr if isinstance(c.func, ast.Attribute) and isinstance(c.func.value, ast.Name) \
+            and c.func.value.id in ('np', 'numpy') else None
+        if npf is not None and isinstance(kw.get('out'), (ast.Name, ast.Attribute)):
+            self.ev(c, env)                               # (the evaluation of the call performs the store into `out`)
+            return
+        text = ast.unparse(c.func)
+        if any(text == p or (p.endswith('.') and text.startswith(p)) for p in self.PURE_CALLS) or npf in ('seterr', 'testing') \
+                or text.endswith('.freeze'):          # (ThrustModeValues.freeze(): makes the record read-only, changes no value)
+            return
+        touched = []
+        recv = c.func.value if isinstance(c.func, ast.Attribute) else None
+        for a in list(c.args) + list(kw.values()) + ([recv] if recv is not None else []):
+            b = a
+            while isinstance(b, (ast.Subscript, ast.Attribute, ast.Starred)):
+                b = b.value
+            if isinstance(b, ast.Name) and isinstance(env.get(b.id), (Lv, Dv, Tv)) and b.id not in touched:
+                touched.append(b.id)
+        for n in touched:
+            self.forget(n, env, f'passed to the call statement {text}(…), which may write into it')
 
     def load_of(self, t):
         t2 = ast.parse(ast.unparse(t), mode='eval').body
